@@ -61,6 +61,8 @@ func term(n *Node, ctx int) string {
 			return "(let " + n.Name + " := " + term(n.Args[0], precLow) + "; " + term(n.Args[1], precLow) + ")"
 		case "need":
 			return term(n.Args[1], ctx)
+		case "scontains":
+			return paren(fmt.Sprintf("%s.contains %d", n.Name, n.Val), precApp, ctx)
 		case "ucall":
 			return paren(ucallText(n), precApp, ctx)
 		case "osome":
@@ -105,6 +107,33 @@ func term(n *Node, ctx int) string {
 		return paren(term(n.Args[0], precAdd)+" "+binSym[n.Op]+" "+term(n.Args[1], precAdd+1), precAdd, ctx)
 	case "mul":
 		return paren(term(n.Args[0], precMul)+" * "+term(n.Args[1], precMul+1), precMul, ctx)
+	case "mod":
+		return paren(term(n.Args[0], precMul)+" % "+term(n.Args[1], precMul+1), precMul, ctx)
+	case "bor":
+		return "(((" + term(n.Args[0], precLow) + ").toNat ||| (" + term(n.Args[1], precLow) + ").toNat : Nat) : Int)"
+	case "lget":
+		if n.Val == 0 {
+			return "c"
+		}
+
+		return paren(fmt.Sprintf("rest.getD %d 0", n.Val-1), precApp, ctx)
+	case "llen":
+		return "(rest.length : Int)"
+	case "slen0":
+		return "(" + n.Name + ".length : Int)"
+	case "emit":
+		return paren(term(n.Args[0], precAdd+1)+" :: "+term(n.Args[1], precAdd), precAdd, ctx)
+	case "emitend":
+		return "[]"
+	case "scancall":
+		l := "rest"
+		if n.Val == 0 {
+			l = "__all__"
+		} else if n.Val > 1 {
+			l = fmt.Sprintf("(rest.drop %d)", n.Val-1)
+		}
+
+		return paren(n.Name+" "+term(n.Args[0], precAtom)+" "+l, precApp, ctx)
 	case "min", "max":
 		return paren(n.Op+" "+term(n.Args[0], precAtom)+" "+term(n.Args[1], precAtom), precApp, ctx)
 	case "ite":
@@ -138,7 +167,11 @@ func ucallText(n *Node) string {
 func callText(n *Node) string {
 	s := n.Name
 	for _, a := range n.Args {
-		s += " " + a.Name
+		if a.Op == "var" {
+			s += " " + a.Name
+		} else {
+			s += " " + term(a, precAtom)
+		}
 	}
 
 	return s
@@ -159,6 +192,8 @@ func prop(n *Node, ctx int) string {
 		return n.Name + ".isSome"
 	case "call":
 		return paren(callText(n), precApp, ctx)
+	case "scontains":
+		return paren(fmt.Sprintf("%s.contains %d", n.Name, n.Val), precApp, ctx)
 	case "ucall":
 		return paren(ucallText(n), precApp, ctx)
 	case "osome":
@@ -199,7 +234,7 @@ func prop(n *Node, ctx int) string {
 
 func simple(n *Node) bool {
 	switch n.Op {
-	case "let":
+	case "let", "emit":
 		return false
 	case "ite":
 		return false
@@ -213,6 +248,9 @@ func simple(n *Node) bool {
 // body renders a function body statement-like: one `let` / `if` per line, early returns as `if c then v else`
 func body(n *Node, ind string, leaf func(*Node) string, sb *strings.Builder) {
 	switch n.Op {
+	case "emit":
+		sb.WriteString(ind + term(n.Args[0], precAdd+1) + " ::\n")
+		body(n.Args[1], ind, leaf, sb)
 	case "need":
 		body(n.Args[1], ind, leaf, sb)
 	case "let":
@@ -251,6 +289,10 @@ func signature(d *Def, name, result string) string {
 // Lean renders a definition and its companion `<name>_defined`.
 func (d *Def) Lean() string {
 	var sb strings.Builder
+
+	if d.Target.Scan != "" {
+		return d.leanScan()
+	}
 
 	sb.WriteString("/-- `" + d.GoName + "`, " + d.Pos + " -/\n")
 	sb.WriteString(signature(d, d.Target.Lean, d.Target.Result))
@@ -528,6 +570,34 @@ func (d *Def) LeanEff() string {
 	}
 
 	d.bodyEff(d.Body, "  ", &sb)
+
+	return sb.String()
+}
+
+// leanScan renders a scan function: its index loop as a function of the index and the remaining suffix, then the
+// function itself
+func (d *Def) leanScan() string {
+	var sb strings.Builder
+
+	leaf := func(n *Node) string { return term(n, precLow) }
+
+	for _, sc := range d.Scans {
+		sb.WriteString("/-- the index loop of `" + d.GoName + "` at index `" + sc.Idx + "` with the bytes `c :: rest` still to come: the " +
+			"bytes written from here on -/\n")
+		sb.WriteString("def " + sc.Name + " : Int → List Int → List Int\n")
+		sb.WriteString("  | " + sc.Idx + ", [] =>\n")
+		body(sc.Nil, "    ", leaf, &sb)
+		sb.WriteString("  | " + sc.Idx + ", c :: rest =>\n")
+		body(sc.Cons, "    ", leaf, &sb)
+		sb.WriteString("termination_by _ l => l.length\ndecreasing_by all_goals simp_wf <;> omega\n\n")
+	}
+
+	sb.WriteString("/-- `" + d.GoName + "`, " + d.Pos + " -/\n")
+	sb.WriteString("def " + d.Target.Lean + " (" + d.Target.Scan + " : List Int) : List Int :=\n")
+
+	var b strings.Builder
+	body(d.Body, "  ", leaf, &b)
+	sb.WriteString(strings.ReplaceAll(b.String(), "__all__", d.Target.Scan))
 
 	return sb.String()
 }
